@@ -52,7 +52,7 @@ def lump(rng, labs, nmacro, macrolabs):
 
 
 def gen(rng, tier):
-    N = 140 if tier == 'quick' else 3000
+    N = G.budget(140) if tier == 'quick' else 3000
     kmax = 7 if tier == 'quick' else 8
     for _ in range(N):
         k = rng.randint(2, kmax)
